@@ -303,6 +303,19 @@ func runC07(r *Run) {
 		}
 		// ---- decode / unmarshal an input
 		doc, what := c07Inputs(rng, cfg, r.Tier)
+		if idx < 28 {
+			// the first cases of every run: each opener kind nested far beyond the depth limit, so that the
+			// draw of the generator cannot miss one (seeded change C07A let records through the depth check
+			// of the CTE lexer; a later change to the input mix made the random draw miss it)
+			openers := []string{"[", "(", "@(", "{1=", "&a:[", "@a{", "@a<", "@a{[", "{\"k\"=@a{", "[@u8x[] ", "&m:&n:", "[/**/"}
+			j := idx - idx/7 // decode cases only: every seventh case marshals a value
+			o := openers[j%len(openers)]
+			n := []int{300000, 3000000}[(j/len(openers))%2]
+			if (o == "&m:&n:" || o == "@(") && n > 5000 {
+				n = 5000
+			}
+			doc, what = []byte("c0 "+strings.Repeat(o, n)), fmt.Sprintf("cte-nested-%d", n)
+		}
 		tmpl, tname := c07Templates(rng)
 		r.out.Case(what+":"+hx(doc[:min(len(doc), 64)]), len(doc) > 2)
 		r.out.Count("input:" + strings.SplitN(what, "-nested-", 2)[0])
